@@ -156,7 +156,28 @@ std::vector<K> gen_int_keys(Rng &r, size_t eps, size_t maxn, std::string &family
             for (size_t i = 0; i < n; ++i) u.push_back(std::min(R, r.pick(pool)));
             break;
         }
-        case 10: { // convex / concave key sequences
+        case 10: if (r.chance(1, 2)) { // long stretches of keys getting sparser / denser inside one segment, then a jump:
+            // one add_point call has to advance the tangent over many hull vertices
+            family = "convex_jumps";
+            uint64_t cur = r.below(1000);
+            bool mirror = r.chance(1, 3);
+            while (u.size() < n) {
+                size_t L = 20 + r.below(r.chance(1, 3) ? 1500 : 300);
+                uint64_t a = r.pick<uint64_t>({1, 1, 2, 5, 40});
+                bool cubic = r.chance(1, 4), shrinking = r.chance(1, 3);
+                uint64_t gap = 0;
+                for (size_t i = 0; i < L && u.size() < n; ++i) {
+                    u.push_back(cur);
+                    size_t j = shrinking ? L - i : i + 1;
+                    gap = cubic ? a * j * j / 8 + 1 : a * j;
+                    cur = sat_add(cur, gap, R);
+                }
+                cur = sat_add(cur, gap * r.pick<uint64_t>({3, 20, 60, 500}) + r.below(gap + 1), R);
+            }
+            if (mirror)
+                for (auto &x : u) x = R - x;
+            break;
+        } else { // convex / concave key sequences
             family = "convex";
             bool expo = r.chance(1, 2);
             uint64_t cur = r.below(100);
